@@ -127,7 +127,7 @@ func cmdCheck(id, tierName string) int {
 		fmt.Fprintf(os.Stderr, "no harness for property %s\n", id)
 		return 2
 	}
-	outDir := filepath.Join(verifDir, "out", id)
+	outDir := filepath.Join(outBase, id)
 	os.RemoveAll(outDir)
 	os.MkdirAll(filepath.Join(outDir, "replay"), 0o755)
 	inconclusive := []string{}
@@ -241,12 +241,19 @@ func cmdCheck(id, tierName string) int {
 		// vacuity: every Assert and Cover label present in the harness must have been reached
 		wantA, wantC := staticLabels(h.fn)
 		if res.Err == "" {
+			otherProp := regexp.MustCompile(`^C[0-9]+/`)
 			for l := range wantA {
+				if !strings.HasPrefix(l, id+"/") {
+					continue // shared lemma code: only this property's obligations are required here
+				}
 				if res.Proved[l]+res.Violated[l]+res.Unknown[l] == 0 {
 					inconclusive = append(inconclusive, fmt.Sprintf("%s: assertion %s never reached (vacuous)", res.Name, l))
 				}
 			}
 			for l := range wantC {
+				if otherProp.MatchString(l) && !strings.HasPrefix(l, id+"/") {
+					continue
+				}
 				if res.Covers[l] == 0 {
 					inconclusive = append(inconclusive, fmt.Sprintf("%s: cover point %s unreachable (vacuous)", res.Name, l))
 				}
@@ -442,9 +449,9 @@ func cmdCheck(id, tierName string) int {
 		"wall_s":      round3(time.Since(t0).Seconds()),
 		"violations":  violationsReported,
 	}
-	os.MkdirAll(filepath.Join(verifDir, "evidence"), 0o755)
+	os.MkdirAll(evidenceDir, 0o755)
 	b, _ := json.MarshalIndent(evd, "", " ")
-	os.WriteFile(filepath.Join(verifDir, "evidence", id+".json"), b, 0o644)
+	os.WriteFile(filepath.Join(evidenceDir, id+".json"), b, 0o644)
 
 	if violationsReported > 0 {
 		return 1
